@@ -21,6 +21,24 @@ CTX = nx.N + "::kql::Context::<'a>"
 TX = nx.N + "::tx::Transaction"
 
 
+class _Site:
+    def __init__(self, block, line):
+        self.block, self.line = block, line
+
+
+def _sites(prog, f, rx):
+    """Where `f` evaluates a call matching rx: the call itself, or - when the call sits in a closure handed to an iterator
+    adaptor (`xs.iter().any(|x| pred(x))`) - the call of `f` that consumes that closure."""
+    out = [_Site(e.block, e.line) for e in f.calls_named(rx)]
+    for k in prog.closures_of(f):
+        if k.coroutine or not k.calls_named(rx):
+            continue
+        for e in f.calls():
+            if any(o[0] == "create" and o[1].cid == k.id for a in e.args for o in f.slice_back_op(a, through=lambda ev: True)):
+                out.append(_Site(e.block, e.line))
+    return out
+
+
 def run(rep, tier):
     prog = nx.load()
     rep.not_decided = "non-interference (relational), masked-field inference through membership/order, delegation attenuation arithmetic, next-request effect of revocation beyond 'resolved under the lock'"
@@ -78,6 +96,8 @@ def run(rep, tier):
     okm = set()
     for e in mr:
         okm |= set(ad.result_edges(e)[0])
+        # may_read answers an Option: `?` (ControlFlow edges) and `let Some(c) = .. else { return None }` (Option edges) are the same test
+        okm |= {m["Some"] for (sb, adt, m) in ad.outcome_edges(e.dest.l) if adt == "core::option::Option" and "Some" in m}
     ok = bool(mr) and bool(red) and bool(ins) and bool(somes) and bool(okm) and ad.must_pass(okm, somes) and all(ad.must_pass([r.block for r in red], [i.block]) for i in ins)
     rep.ob("R19.1", "admit-decides-and-redacts|Context::admit", ok, "admit returns Some only on the permitted edge of may_read and caches the view only after redaction", ad.file + ":%d" % ad.line)
     # matchers read the cached (redacted) view, never a fresh render
@@ -240,8 +260,8 @@ def run(rep, tier):
     rep.saw(az, len(az.events))
     # order of the decision: status reads -> deny loop (statement_matches under effect == "deny") -> allows -> final
     denyc = [e for e in az.calls() if e.cid in {k.id for k in prog.closures_of(prog.fn(nx.N + "::governance::decision::EffectiveAuthority::authorize", body=False))} and "deny" in (az.var_name(core.op_place(e.args[0]).l if core.op_place(e.args[0]) else -1) or "deny")]
-    sm = az.calls_named(r"EffectiveAuthority::statement_matches$")
-    cm_ = az.calls_named(r"decision::candidate_matches$")
+    sm = _sites(prog, az, r"EffectiveAuthority::statement_matches$")
+    cm_ = _sites(prog, az, r"decision::candidate_matches$")
     status_reads = _field_read_blocks(az, "status")
     ok = bool(sm) and bool(cm_) and bool(status_reads) and len(sm) >= 2
     if ok:
